@@ -945,7 +945,11 @@ static void c05_case(uint64_t idx, rng_t *r) {
         return; /* enumerated part: adjacent pairs only */
     }
     /* random pair */
-    c05_pair(gen_value(r), gen_value(r), "random");
+    {
+        uint64_t ra = gen_value(r);
+        uint64_t rb = gen_value(r);
+        c05_pair(ra, rb, "random");
+    }
     /* (2) one-payload-byte perturbation */
     {
         uint8_t e[9], p[9];
@@ -1033,7 +1037,9 @@ static int64_t c12_amount(rng_t *r, int64_t s) {
         return rng_chance(r, 1, 2) ? p : -p;
     }
     case 2: { /* land exactly on / next to a width boundary */
-        uint64_t b = g_bound[rng_below(r, (uint64_t)g_nbound)] + rng_below(r, 5) - 2;
+        uint64_t b = g_bound[rng_below(r, (uint64_t)g_nbound)];
+        b += rng_below(r, 5);
+        b -= 2;
         return (int64_t)(b - (uint64_t)s);
     }
     case 3:
@@ -1144,7 +1150,9 @@ static void c12_case(uint64_t idx, rng_t *r) {
     (void)idx;
     uint64_t su = gen_value(r);
     if (rng_chance(r, 1, 3)) { /* at a width boundary +-2 */
-        su = g_bound[rng_below(r, (uint64_t)g_nbound)] + rng_below(r, 5) - 2;
+        su = g_bound[rng_below(r, (uint64_t)g_nbound)];
+        su += rng_below(r, 5);
+        su -= 2;
     }
     int64_t a = c12_amount(r, (int64_t)su);
     bool isnew = distinct_add(&g_distinct, su * 0x9E3779B97F4A7C15ULL ^ (uint64_t)a);
